@@ -334,7 +334,8 @@ var c14Records = []c14Val{
 	{"carol", "18", "", "", "Oslo", "1000"},
 }
 
-func C14_Jobs() []string {
+func C14_Jobs() []string { return append(c14_jobs0(), "json-records") }
+func c14_jobs0() []string {
 	return append([]string{"flat/json", "flat/zhttp-json", "flat/form", "flat/query", "flat/env", "nested/json", "nested/zhttp-json", "nested/form", "nested/query", "nested/env", "flat/sequence", "flat/zhttp-json-param", "flat/named-map", "nested/named-map", "flat/named-strmap", "flat/env-reused", "values/float32-and-lists"}, c14SymJobs()...)
 }
 // one record whose leaves sit on value boundaries (a decimal next to a float32 rounding midpoint,
@@ -419,6 +420,10 @@ func c14Obs(errs z.ZogIssueMap, d *c14Rec, nested bool, rename func(string) stri
 }
 
 func C14_Run(job string) {
+	if job == "json-records" {
+		jrCheck("C14")
+		return
+	}
 	a, b, _, _ := split3(job)
 	if a == "sym" {
 		c14Sym(b)
